@@ -143,6 +143,12 @@ def RC.assign (r : RC) (i j : Nat) : RC :=
     { r2 with ptrs := r2.ptrs.set j p }
   else r
 
+/-- `ptr[i].swap(ptr[j])`: the two pointer values change places, no counter is touched -/
+def RC.swap (r : RC) (i j : Nat) : RC :=
+  if i < r.ptrs.length ∧ j < r.ptrs.length then
+    { r with ptrs := (r.ptrs.set i (r.ptrs[j]?).join).set j (r.ptrs[i]?).join }
+  else r
+
 def RC.reset (r : RC) (i : Nat) : RC :=
   if i < r.ptrs.length then
     let r1 := r.release (r.ptrs[i]?).join
